@@ -5,6 +5,8 @@ pub fn run(which: &str) {
         "c06_index_param" => c06_index_param(),
         "c07_publish_minutxo" => c07_publish_minutxo(),
         "c12_inputs" => c12_inputs(),
+        "c12_nesting" => c12_nesting(),
+        "c12_selfref" => c12_selfref(),
         "c14_sites" => crate::c14::run(),
         "c13_inputs" => c13_inputs(),
         "c02_values" => crate::c02::run(),
@@ -15,6 +17,7 @@ pub fn run(which: &str) {
         "c17_collide" => c17_collide(),
         "c01_dropped" => crate::c08::run_c01(),
         "c03_foreign" => c03_foreign(),
+        "c02_withdrawals" => crate::c08::run_c02_withdrawals(),
         _ => panic!("unknown scenario {which}"),
     }
 }
@@ -75,6 +78,54 @@ fn c12_inputs() {
         });
         match r { Ok(m) => println!("OK    {:60} -> {}", src.replace('\n'," "), m), Err(_) => println!("PANIC {:60}", src.replace('\n'," ")) }
     }
+}
+
+fn c12_nesting() {
+    // nested list literals, last element without a trailing comma: [[[..[1]..]]]
+    for depth in [8usize, 12, 16, 18, 20, 22] {
+        for comma in [true, false] {
+            let open = "[".repeat(depth);
+            let close = if comma { ",]".repeat(depth) } else { "]".repeat(depth) };
+            let src = format!("tx t() {{ output {{ datum: {open}1{close}, }} }}");
+            let t0 = std::time::Instant::now();
+            let r = tx3_lang::parsing::parse_string(&src).is_ok();
+            println!("depth {:2} trailing commas {:5}: parsed={} in {:?}", depth, comma, r, t0.elapsed());
+        }
+    }
+}
+
+fn c12_selfref() {
+    let inputs = [
+        "type T { a: T, b: T, } type X = Int;",
+        "type T { a: T, b: T, }",
+        "type T { a: T, b: T, c: Undefined, }",
+        "tx t() { locals { a: a + a + a + a, } }",
+        "tx t() { locals { a: a + a + a + a + a + a + a + a, } }",
+        "tx t() { locals { a: a + a, } }",
+        "type Node { next: Node, }\ntx t() {}",
+        "type Node { next: Node, }\ntype A = Int;\ntx t() {}",
+        "type A = Int;\ntype Node { v: A, next: Node, }\ntx t() {}",
+        "type A = B;\ntype B = A;\ntx t() {}",
+        "type A = A;\ntx t() {}",
+        "type L { items: List<L>, }\ntype A = Int;\ntx t() {}",
+        "type X { a: Y, }\ntype Y { b: X, }\ntype A = Int;\ntx t() {}",
+    ];
+    for src in inputs {
+        let (txc, rx) = std::sync::mpsc::channel();
+        let s2 = src.to_string();
+        std::thread::Builder::new().stack_size(64 << 20).spawn(move || {
+            let r = std::panic::catch_unwind(|| match tx3_lang::parsing::parse_string(&s2) {
+                Ok(mut ast) => { let rep = tx3_lang::analyzing::analyze(&mut ast); format!("parsed; analyze errors={}", rep.errors.len()) }
+                Err(e) => format!("parse error: {}", e.message),
+            });
+            let _ = txc.send(match r { Ok(m) => m, Err(_) => "PANIC".to_string() });
+        }).unwrap();
+        match rx.recv_timeout(std::time::Duration::from_secs(10)) {
+            Ok(m) => println!("{:70} -> {}", src.replace('\n', " "), m),
+            Err(_) => println!("{:70} -> NO ANSWER within 10 s", src.replace('\n', " ")),
+        }
+    }
+    std::process::exit(0);
 }
 
 fn c13_inputs() {
